@@ -290,7 +290,13 @@ Record CaseScalar := mkCaseScalar {
   cs_ops : ScalarOps;
   cs_of_dyadic : Z -> Z -> car cs_ops;
   cs_close : car cs_ops -> car cs_ops -> car cs_ops -> bool;     (* tolerance, model value, implementation value *)
-  cs_approx : car cs_ops -> Z * Z
+  cs_approx : car cs_ops -> Z * Z;
+  cs_print : car cs_ops -> list bigZ       (* [count of 2^-384] for fixed point, [numerator; denominator] for rationals *)
 }.
-Definition CBQ : CaseScalar := mkCaseScalar BQ bq_of_dyadic bq_close bq_approx.
-Definition CFX : CaseScalar := mkCaseScalar FX fx_of_dyadic fx_close fx_approx.
+Definition bq_print (x : bigQ) : list bigZ :=
+  match BigQ.red x with
+  | BigQ.Qz z => [z; 1%bigZ]
+  | BigQ.Qq z d => [z; BigZ.Pos d]
+  end.
+Definition CBQ : CaseScalar := mkCaseScalar BQ bq_of_dyadic bq_close bq_approx bq_print.
+Definition CFX : CaseScalar := mkCaseScalar FX fx_of_dyadic fx_close fx_approx (fun x => [x]).
